@@ -182,7 +182,7 @@ func poolInst(r *Rand, mode int) *XInst {
 	}
 }
 
-var dataStrings = []string{"hello", "a;b", "x#y", "p,q", " sp ace ", "it's", "A", "HELLO, world; # ok"}
+var dataStrings = []string{"hello", "a;b", "x#y", "p,q", " sp ace ", "it's", "A", "HELLO, world; # ok", "ロード中", "naïve"}
 
 func numItem(v int64, style int) DItem { return DItem{Kind: "num", Num: v, Text: spellInt(v, style)} }
 
